@@ -59,6 +59,34 @@ fn fval(r: &mut Rng) -> f32 {
 fn f3(r: &mut Rng) -> [f32; 3] {
     [fval(r), fval(r), fval(r)]
 }
+/// Value class of scalar fields (shape dimension `vals`): a (min, max) pair within +-lim.
+///   rand: min < max random;  flat: min == max (degenerate range);  zero: both 0.0;  extreme: (-lim, lim)
+fn range_pair(vals: &str, lim: f32, r: &mut Rng) -> (f32, f32) {
+    match vals {
+        "flat" => {
+            let c = (r.below(2000) as f32) * 0.5 - 500.0;
+            (c, c)
+        }
+        "zero" => (0.0, 0.0),
+        "extreme" => (-lim, lim),
+        _ => {
+            let lo = (r.below(1000) as f32) * 0.5;
+            (lo, lo + 1.0 + (r.below(100) as f32) * 0.25)
+        }
+    }
+}
+/// A 3-vector of the value class: rand, flat (all components equal), zero (0.0 / -0.0), extreme (+-f32::MAX, MIN_POSITIVE)
+fn f3v(vals: &str, r: &mut Rng) -> [f32; 3] {
+    match vals {
+        "flat" => {
+            let c = fval(r);
+            [c, c, c]
+        }
+        "zero" => [0.0, -0.0, 0.0],
+        "extreme" => [f32::MAX, -f32::MAX, f32::MIN_POSITIVE],
+        _ => f3(r),
+    }
+}
 
 struct Inputs {
     version: AdtVersion,
@@ -108,7 +136,7 @@ fn names(n: usize, dir: &str, ext: &str, dup: &str, r: &mut Rng) -> Vec<String> 
 ///   rect 0: 8x8@(0,0)  1: 2x3@(1,2)  2: 5x8@(3,0)  3: 1x1@(7,7)
 /// Bitmap contents are random within the rectangle's bit count, never all-zero and (for >= 2 bits)
 /// never all-ones, so a lost / overwritten / shifted bitmap changes the token.
-fn water_layer(k: usize, r: &mut Rng) -> (Mh2oInstance, Option<VertexDataArray>, Option<u64>) {
+fn water_layer(k: usize, vals: &str, r: &mut Rng) -> (Mh2oInstance, Option<VertexDataArray>, Option<u64>) {
     let (bm_on, vd_on, lvf, rect) = (k % 2 == 1, (k / 2) % 2 == 1, ((k / 4) % 4) as u16, (k / 16) % 4);
     let (xo, yo, w, h) = match rect {
         0 => (0u8, 0u8, 8u8, 8u8),
@@ -119,8 +147,8 @@ fn water_layer(k: usize, r: &mut Rng) -> (Mh2oInstance, Option<VertexDataArray>,
     let inst = Mh2oInstance {
         liquid_type: 1 + r.below(20) as u16,
         liquid_object_or_lvf: lvf,
-        min_height_level: fval(r),
-        max_height_level: fval(r),
+        min_height_level: range_pair(vals, f32::MAX, r).0,
+        max_height_level: range_pair(vals, f32::MAX, r).1,
         x_offset: xo,
         y_offset: yo,
         width: w,
@@ -181,12 +209,12 @@ fn water_layer(k: usize, r: &mut Rng) -> (Mh2oInstance, Option<VertexDataArray>,
 /// Water of chunk `ci`: `layers` layers; layer l uses configuration (wbase + 5*ci + 21*l) mod 64, so a
 /// tile with water on all 256 chunks carries every element of the product several times and a tile
 /// with water on one chunk carries exactly the configurations the case names.
-fn water_entry(ci: usize, slot: usize, layers: usize, wbase: usize, r: &mut Rng) -> Mh2oEntry {
+fn water_entry(ci: usize, slot: usize, layers: usize, wbase: usize, vals: &str, r: &mut Rng) -> Mh2oEntry {
     let mut instances = Vec::new();
     let mut vertex_data = Vec::new();
     let mut exists_bitmaps = Vec::new();
     for l in 0..layers {
-        let (i, v, b) = water_layer((wbase + 5 * slot + 21 * l) % 64, r);
+        let (i, v, b) = water_layer((wbase + 5 * slot + 21 * l) % 64, vals, r);
         instances.push(i);
         vertex_data.push(v);
         exists_bitmaps.push(b);
@@ -228,12 +256,13 @@ fn mcnk(c: &Value, ix: u32, iy: u32, opt: bool, r: &mut Rng) -> McnkChunk {
             (0x20, LiquidType::Slime),
         ]);
         flags |= bit;
-        let lo = (r.below(1000) as f32) * 0.5;
+        // the parser accepts |height| <= 10000 and min <= max (a flat surface is a valid liquid)
+        let (lo, hi) = range_pair(gs(c, "vals"), 10000.0, r);
         let mut tf = [0u8; 64];
         r.fill(&mut tf);
         Some(MclqChunk {
             min_height: lo,
-            max_height: lo + 1.0 + (r.below(100) as f32) * 0.25,
+            max_height: hi,
             vertices: (0..81)
                 .map(|_| LiquidVertex { union_data: [r.byte(), r.byte(), r.byte(), r.byte()], height: fval(r) })
                 .collect(),
@@ -334,28 +363,58 @@ fn make_inputs(c: &Value, case: &str) -> Inputs {
     let wmos = names(gi(c, "nwmo") as usize, "world/wmo/b", "wmo", gs(c, "dwmo"), &mut r);
     let nm = models.len().max(1) as u64;
     let nw = wmos.len().max(1) as u64;
+    // placement field classes (shape dimension `pcls`): rand | lo (0 / smallest legal) | hi (all ones) |
+    // bits (single flag / id bit, rotating from `pbit` per placement); float fields follow `vals`
+    let vals = gs(c, "vals");
+    let pcls = gs(c, "pcls");
+    let pbit = gi(c, "pbit") as u32;
     let ddf = (0..gi(c, "nddf"))
-        .map(|i| DoodadPlacement {
-            name_id: ((nm - 1 - (i as u64 % nm)) % nm) as u32, // last index first, then every other index
-            unique_id: 1000 + i as u32 * 7 + r.below(7) as u32,
-            position: f3(&mut r),
-            rotation: f3(&mut r),
-            scale: 1 + r.below(4000) as u16,
-            flags: r.below(16) as u16,
+        .map(|i| {
+            let i = i as u32;
+            let (uid, scale, flags) = match pcls {
+                "lo" => (0u32, 1u16, 0u16), // a doodad scale of 0 is rejected by the builder by contract
+                "hi" => (u32::MAX, u16::MAX, u16::MAX),
+                "bits" => (1u32 << ((pbit + i) % 32), 1024, 1u16 << ((pbit + i) % 16)),
+                _ => (1000 + i * 7 + r.below(7) as u32, 1 + r.below(4000) as u16, r.below(16) as u16),
+            };
+            DoodadPlacement {
+                name_id: ((nm - 1 - (i as u64 % nm)) % nm) as u32, // last index first, then every other index
+                unique_id: uid,
+                position: f3v(vals, &mut r),
+                rotation: f3v(vals, &mut r),
+                scale,
+                flags,
+            }
         })
         .collect();
     let modf = (0..gi(c, "nmodf"))
-        .map(|i| WmoPlacement {
-            name_id: ((nw - 1 - (i as u64 % nw)) % nw) as u32,
-            unique_id: 5000 + i as u32 * 11 + r.below(11) as u32,
-            position: f3(&mut r),
-            rotation: f3(&mut r),
-            extents_min: f3(&mut r),
-            extents_max: f3(&mut r),
-            flags: r.below(8) as u16,
-            doodad_set: r.below(5) as u16,
-            name_set: r.below(5) as u16,
-            scale: 1 + r.below(4000) as u16,
+        .map(|i| {
+            let i = i as u32;
+            let (uid, scale, flags, dset, nset) = match pcls {
+                "lo" => (0u32, 0u16, 0u16, 0u16, 0u16),
+                "hi" => (u32::MAX, u16::MAX, u16::MAX, u16::MAX, u16::MAX),
+                "bits" => (1u32 << ((pbit + i + 7) % 32), 1024, 1u16 << ((pbit + i + 5) % 16), 1u16 << ((pbit + i) % 16), 1),
+                _ => (5000 + i * 11 + r.below(11) as u32, 1 + r.below(4000) as u16, r.below(8) as u16, r.below(5) as u16, r.below(5) as u16),
+            };
+            let (emin, emax) = match vals {
+                "flat" => {
+                    let e = f3(&mut r);
+                    (e, e) // degenerate bounding box
+                }
+                _ => (f3v(vals, &mut r), f3v(vals, &mut r)),
+            };
+            WmoPlacement {
+                name_id: ((nw - 1 - (i as u64 % nw)) % nw) as u32,
+                unique_id: uid,
+                position: f3v(vals, &mut r),
+                rotation: f3v(vals, &mut r),
+                extents_min: emin,
+                extents_max: emax,
+                flags,
+                doodad_set: dset,
+                name_set: nset,
+                scale,
+            }
         })
         .collect();
     // terrain chunks: which grid cells are populated, and which of them carry the optional sub-chunks
@@ -395,15 +454,20 @@ fn make_inputs(c: &Value, case: &str) -> Inputs {
             };
             let wbase = gi(c, "wbase") as usize;
             for (slot, ci) in which.into_iter().enumerate() {
-                entries[ci] = water_entry(ci, slot, wlay, wbase, &mut r);
+                entries[ci] = water_entry(ci, slot, wlay, wbase, gs(c, "vals"), &mut r);
             }
             Some(Mh2oChunk { entries })
         }
     };
     let mfbo = if gb(c, "mfbo") {
         let mut p = [0i16; 18];
-        for v in p.iter_mut() {
-            *v = r.next_u32() as i16;
+        for (j, v) in p.iter_mut().enumerate() {
+            *v = match vals {
+                "flat" => 77,
+                "zero" => 0,
+                "extreme" => if j % 2 == 0 { i16::MAX } else { i16::MIN },
+                _ => r.next_u32() as i16,
+            };
         }
         let mut a = [0i16; 9];
         let mut b = [0i16; 9];
@@ -875,14 +939,25 @@ fn run_case(ci: usize, c: &Value) -> Vec<Value> {
         if round == ROUNDS {
             break;
         }
-        let o = guarded(|| BuiltAdt::from_root_adt(root, None));
+        // the public load-modify-save routes: BuiltAdt::from_root_adt(root, None) | AdtBuilder::from_parsed(root).build()
+        let route = gs(c, "route");
+        let o = guarded(|| match route {
+            "root" => Ok(BuiltAdt::from_root_adt(root, None)),
+            "builder" => AdtBuilder::from_parsed(root).build(),
+            o => tool_error(&format!("unknown route {o}")),
+        });
         match o {
-            Outcome::Done(b) => {
-                evs.push(json!({"ev":"Rebuild","case":case,"round":round + 1,"res":"ok","ver":ver_idx(b.version()),"msg":""}));
+            Outcome::Done(Ok(b)) => {
+                evs.push(json!({"ev":"Rebuild","case":case,"round":round + 1,"route":route,"res":"ok","ver":ver_idx(b.version()),"msg":""}));
                 cur = b;
             }
+            Outcome::Done(Err(e)) => {
+                evs.push(json!({"ev":"Rebuild","case":case,"round":round + 1,"route":route,"res":format!("err:{}", variant_name(&e)),"ver":-1,
+                    "msg":normalise_digits(&format!("{e:?}"))}));
+                return evs;
+            }
             other => {
-                evs.push(json!({"ev":"Rebuild","case":case,"round":round + 1,"res":"panic","ver":-1,"msg":panic_msg(&other)}));
+                evs.push(json!({"ev":"Rebuild","case":case,"round":round + 1,"route":route,"res":"panic","ver":-1,"msg":panic_msg(&other)}));
                 return evs;
             }
         }
